@@ -70,6 +70,7 @@ type FuncContract struct {
 	Recvs      map[string]*Clause // channel text -> assumed invariant of received values (trusted)
 	Uses       map[string]bool    // when non-nil: only the postconditions of these callees are assumed (others: results and write sets only)
 	MaxPaths   int                // live symbolic paths kept apart before joining (default 4)
+	Frozen   []string // captured variables the literal needs unchanged after its creation
 	Bounded    string             // non-empty: obligations of this function are bounded stand-ins (text = bound)
 	Skip       map[string]bool    // kinds of implicit obligations not generated (reported)
 	Notes      []string
@@ -129,7 +130,7 @@ var propsRe = regexp.MustCompile(`^@([A-Z0-9,]+)\s+`)
 var clauseKeywords = map[string]bool{
 	"func": true, "iface": true, "fieldfunc": true, "spec": true, "lemma": true, "axiom": true, "modset": true, "requires": true, "assumes": true, "ensures": true, "modifies": true, "loop": true,
 	"invariant": true, "decreases": true, "trusted": true, "props": true, "ghost": true, "at": true, "after": true, "recv": true,
-	"pure": true, "nopanic": true, "paths": true, "forget": true, "uses": true, "replay": true, "bounded": true, "skip": true, "note": true,
+	"pure": true, "nopanic": true, "paths": true, "captures": true, "forget": true, "uses": true, "replay": true, "bounded": true, "skip": true, "note": true,
 }
 
 type rawLine struct {
@@ -355,6 +356,14 @@ func (cs *ContractSet) ParseContractFile(pkgPath, filename string, f *ast.File, 
 					return fmt.Errorf("%s:%d: forget outside loop", filename, l.line)
 				}
 				curLoop.Forget = true
+			case "captures":
+				// captures frozen v1 v2: the literal relies on these captured variables keeping the value they had when
+				// it was created (it outlives the statement that creates it); checked in the enclosing function
+				fs := strings.Fields(strings.ReplaceAll(rest, ",", " "))
+				if len(fs) < 2 || fs[0] != "frozen" {
+					return fmt.Errorf("%s:%d: bad captures clause (want: captures frozen <names>)", filename, l.line)
+				}
+				cur.Frozen = append(cur.Frozen, fs[1:]...)
 			case "paths":
 				n, err := strconv.Atoi(strings.TrimSpace(rest))
 				if err != nil || n < 1 {
